@@ -27,6 +27,14 @@ GRAPHS = {
     "two-cycle": ([("main.oal", ["a.oal"], "res / on get -> <{}>;"), ("a.oal", ["b.oal"], "let ta = {};"), ("b.oal", ["a.oal"], "let tb = {};")], "cycle"),
     "self-import": ([("main.oal", ["main.oal"], "res / on get -> <{}>;")], "cycle"),
     "cycle-through-main": ([("main.oal", ["a.oal"], "res / on get -> <{}>;"), ("a.oal", ["main.oal"], "let ta = {};")], "cycle"),
+    # imports are relative to the importing module, wherever it lives
+    "nested-directories": ([("main.oal", ["lib/api.oal"], "res / on get -> <ta>;"), ("lib/api.oal", ["types.oal", "../top.oal"], "let ta = tt & tp;"),
+                            ("lib/types.oal", [], "let tt = {};"), ("top.oal", [], "let tp = {};")], "ok"),
+    "same-name-in-two-directories": ([("main.oal", ["lib/a.oal", "b.oal"], "res / on get -> <ta & tb>;"), ("lib/a.oal", ["b.oal"], "let ta = tlb;"),
+                                      ("lib/b.oal", [], "let tlb = {};"), ("b.oal", [], "let tb = {};")], "ok"),
+    "one-file-reached-by-two-relative-paths": ([("main.oal", ["lib/a.oal", "lib/b.oal"], "res / on get -> <ta & tlb>;"), ("lib/a.oal", ["b.oal", "./b.oal", "../lib/b.oal"], "let ta = tlb;"),
+                                                ("lib/b.oal", [], "let tlb = {};")], "ok"),
+    "cycle-across-directories": ([("main.oal", ["lib/a.oal"], "res / on get -> <{}>;"), ("lib/a.oal", ["../main.oal"], "let ta = {};")], "cycle"),
     "missing-import": ([("main.oal", ["a.oal"], "res / on get -> <{}>;"), ("a.oal", ["nope.oal"], "let ta = {};")], "missing:nope.oal"),
 }
 
@@ -195,7 +203,7 @@ def run_graphs(tag="graphs"):
             norm = lambda p: os.path.normpath(p)
             for fn, imports, _ in files:
                 for i in imports:
-                    i = norm(i)
+                    i = norm(os.path.join(os.path.dirname(fn), i))
                     if fn in comps and i in comps and comps.index(i) > comps.index(fn):
                         mism.append("%s: %s compiled before its import %s" % (name, fn, i))
         elif expect == "cycle":
@@ -250,7 +258,7 @@ def check():
         return ok
 
     LOAD, PARSE, COMPILE, VALID = "L.Loader::load", "L.Loader::parse", "L.Loader::compile", "L.Loader::is_valid"
-    n_new = n_known = n_comp = n_ok = n_cyc = n_invalid = 0
+    n_new = n_known = n_comp = n_ok = n_cyc = n_invalid = n_join = 0
     for p in outs:
         if p.kind not in ("return", "backedge"):
             continue
@@ -295,6 +303,26 @@ def check():
                 okk = len(edges) == 1 and not ins and not push and not addn and not mins and \
                     any(t == m for t in ms.subterms(edges[0][2][1]))
                 structural("import step (known module): exactly one edge from the known node to the importer, nothing else", okk)
+        # --- collecting the imports of the module taken from the work list
+        joins = [e for e in tcalls if e[1] == "Locator::join"]
+        if joins and p.kind == "backedge":
+            n_join += 1
+            pops = [e for e in calls if e[1] == "Vec::pop"]
+            nws = [e for e in calls if e[1].endswith("::node_weight")]
+            cur = None
+            for e in nws:
+                if pops and e[2][1] == ms.proj(ms.proj(pops[-1][3], ("v", "Some"), E), ("f", 0), E):
+                    cur = ms.proj(ms.proj(e[3], ("v", "Some"), E), ("f", 0), E)
+            okj = len(joins) == 1 and cur is not None and joins[0][2][0] == cur and \
+                any(t[0] == "app" and t[1] == "Import::module" for t in ms.subterms(joins[0][2][1]))
+            structural("import collection: an import path is resolved against the locator of the module that contains the use statement "
+                       "(the work-list item), as the resolver does", okj)
+            va = [e for e in tcalls if e[1] == VALID]
+            pu = [e for e in tcalls if e[1] == "Vec::push"]
+            okv = len(va) == 1 and any(t == joins[0][3] for t in ms.subterms(va[0][2][1])) and len(pu) == 1 and any(t == joins[0][3] for t in ms.subterms(pu[0][2][1]))
+            structural("import collection: the locator that is validated and queued is the joined one", okv)
+            if va:
+                L.expect_unsat("import collection: an import is queued only if the loader says it is valid", cond + [z3.Not(S.b(va[0][3]))], on_sat)
         comp = [e for e in tcalls if e[1] == COMPILE]
         if comp and p.kind == "backedge":
             n_comp += 1
@@ -345,7 +373,7 @@ def check():
                 en = [e for e in q.calls() if e[1] == "Error::new"][0]
                 if "CycleDetected" in ms.show(en[2][0]):
                     o.query("load(): the toposort error is reported as Kind::CycleDetected", "mirsym/structural", "unsat", 0)
-    shape = {"new": n_new, "known": n_known, "compile": n_comp, "ok": n_ok, "cycle": n_cyc, "invalid": n_invalid}
+    shape = {"new": n_new, "known": n_known, "compile": n_comp, "ok": n_ok, "cycle": n_cyc, "invalid": n_invalid, "join": n_join}
     o.extra["paths_by_role"] = shape
     if min(shape.values()) == 0:
         o.inconc("module::load: a step lemma found no path to talk about (%s)" % shape)
